@@ -62,6 +62,22 @@ def r1_containment(ctx, rep):
            "the warning no longer names the rejected file", py.nloc(warns[0]) if warns else py.nloc(h))
     ok = isinstance(h.body[-1], ast.Continue)
     rep.ob("handler continues with the next file", ok, "", py.nloc(h))
+    # the handler itself must not raise: e.args[k] only under a length test
+    for sub in ast.walk(h):
+        if isinstance(sub, ast.Subscript) and ast.unparse(sub.value).endswith(".args") and isinstance(sub.slice, ast.Constant):
+            p = sub
+            guarded = False
+            while p is not h:
+                p = py.parents[p]
+                if isinstance(p, ast.IfExp) and "len(" in ast.unparse(p.test) and ".args" in ast.unparse(p.test):
+                    guarded = True
+                if isinstance(p, ast.If) and "args" in ast.unparse(p.test):
+                    guarded = True
+            rep.ob(f"handler reads {ast.unparse(sub)} only when it exists", guarded,
+                   "guarded by a length test" if guarded else
+                   f"`{ast.unparse(sub)}` is evaluated unconditionally inside the handler: an exception raised without "
+                   f"arguments (NotImplementedError(), StopIteration()) makes the handler itself fail with IndexError and the "
+                   f"whole run aborts", py.nloc(sub))
     # defaults
     ps = py.cls("ProjectSettings")
     dbg = ps.class_attrs.get("dbg")
